@@ -131,6 +131,8 @@ def pick_contribs(rng, spec, force=None):
             out.append({'name': 'LeeMie', 'lee_mie_radius': float(10 ** rng.uniform(-3, 0.5)),
                         'lee_mie_q': float(rng.uniform(1, 100)), 'lee_mie_mix_ratio': float(10 ** rng.uniform(-16, -6)),
                         'lee_mie_bottomP': b, 'lee_mie_topP': t})
+            if rng.random() < 0.35:
+                out[-1]['radius_repr'] = '0-d-array'
         else:
             out.append(n)
     return out
